@@ -313,10 +313,17 @@ func main() {
 		api bool
 	}
 	// stream 1: every raw value x every BGPConfiguration state, bare pool, syncer path
+	// (quick tier: the full product only over absent / the four values on both sides; every other string on one side is
+	// paired with three settings of the other side - the two halves are computed independently by the code anyway)
 	var combos []comboT
+	core := func(present bool, s string) bool { return !present || isFour(s) }
 	for _, br := range braws {
 		for _, fr := range fraws {
-			combos = append(combos, comboT{fr, br, flagsT{}, false})
+			if *full || (core(fr.present, fr.s) && core(br.kind == 2, br.s)) ||
+				(core(fr.present, fr.s) && (!fr.present || fr.s == "Enabled" || fr.s == "Disabled")) ||
+				(core(br.kind == 2, br.s) && (br.kind == 1 || br.s == "Enabled" || br.s == "Disabled")) {
+				combos = append(combos, comboT{fr, br, flagsT{}, false})
+			}
 		}
 	}
 	// stream 2: the default pair and the four supported pairings x pool attributes that must not matter x both paths
